@@ -292,7 +292,11 @@ func ShrinkAndWrite(t *testing.T, eng Engine, plan Plan, res *Result, v Violatio
 	}
 	orig := Candidate[Plan]{Plan: plan, Tape: res.Tape}
 	// The recorded tape must reproduce the failure by itself.
-	if !sh.Run(orig) {
+	reproduced := false
+	for try := 0; try < 3 && !reproduced; try++ {
+		reproduced = sh.Run(orig)
+	}
+	if !reproduced {
 		pj, _ := json.Marshal(plan)
 		return "(not reproducible from its own tape: harness nondeterminism) plan=" + string(pj)
 	}
